@@ -35,7 +35,7 @@ def case_strategy(draw):
         c = draw(c04.case_strategy())
         return {"kind": "after-actions", "text": c04.deck_text(c, False), "apps": c["apps"]}
     blocks = draw(MG.gen_schedule(kinds=list(MG.GENERATORS) + list(getattr(MG, "EXTRA_GENERATORS", {}))))
-    unit = draw(st.sampled_from(["METRIC", "FIELD", "LAB"]))
+    unit = draw(st.sampled_from(["METRIC", "FIELD", "LAB", "PVT-M"]))
     static = draw(MG.gen_static())
     return {"kind": "generated", "text": MG.render(blocks, unit, static=static)}
 
